@@ -755,7 +755,12 @@ class Interp:
         return str(self._present(self.value(a[0]), "strip")).strip()
 
     def v_length(self, n, q, a):
-        return len(str(self._present(self.value(a[0]), "length")))
+        # docs/functions/string_functions.md: length(value) "Same as you would expect": nothing there (an absent header, an unset
+        # variable, an empty cell) has length 0
+        v = self.value(a[0])
+        if is_none(v):
+            return 0
+        return len(str(v))
 
     def v_substring(self, n, q, a):
         v = self._present(self.value(a[0]), "substring")
